@@ -12,6 +12,9 @@ CLAIMED = {
  "C11": ("Coq proof (symbolic in the digits: nibble packing, BCD MSIN by pair induction) over a hand model of EncodeSuci/PLMN slice/PlmnIDToNas + differential correspondence run",
          "Theorems in coq/Properties/C11.v for every MCC (3 digits), MNC (2 or 3 digits) and MSIN (any length, odd or even): an independent TS 24.501 9.11.3.4 decoder (Spec/Suci.v) applied to EncodeSuci's output returns the same MCC/MNC/MSIN (routing indicator 0, null scheme); the PLMN octets taken for NG Setup equal the standard 3-octet coding and the library's PlmnIDToNas and decode back. Each run executes the model and the spec decoder on the real EncodeSuci output, on the REGISTRATION/DEREGISTRATION REQUEST built by the emulator's constructors and on the PLMN octets found in encoded NGSetupRequest / InitialUEMessage.",
          "Coq kernel + vm_compute; hand model tied by differential execution; SUCI/PLMN layout transcribed from memory of TS 24.501; NGAP PLMN assumed to use the same nibble order (as the property states).", "DESIGN.md §7 C11"),
+ "C17": ("Coq proofs (hex/nibble/bit-field arithmetic, induction over option lists with a loop invariant for the UnMarshal state machine) over hand models + differential correspondence run",
+         "Theorems in coq/Properties/C17.v: for all PLMNs (3-digit MCC, 2/3-digit MNC), all SST 0..255 with/without every 3-octet SD, all 2^24 AMF identifiers, all IPv4/IPv6/dual-stack addresses, all option lists of any length with contents of 0..255 octets, all DNNs < 256 octets: the independent standard decoder (Spec/Convert3gpp.v, Spec/Suci.v) applied to the library's output returns the input, and the library's own inverse (IPAddressToString, UnMarshal, UnmarshalBinary) returns it too. Models are executed against the real functions on every run (incl. malformed streams: bad hex, short AMF ids, mismatching BIT STRING lengths, truncated PCO).",
+         "Coq kernel + vm_compute; hand models tied by differential execution; encodings transcribed from memory of TS 24.501/23.003/38.414/24.008; textual IP forms handled by Go's net package in the harness.", "DESIGN.md §7 C17"),
 }
 PENDING_REASON = "check not built yet in this round (work in progress; see DESIGN.md §7 for the planned proof)"
 
